@@ -5,6 +5,7 @@
 //   stdin (or the file named by argv[1]) holds one request in the xvcommon.hpp format.  Top-level fields:
 //     n          number of threads
 //     seed       schedule seed (per-thread PRNG = splitmix64(seed, thread))
+//     st         1: control run -- execute all lists sequentially on the main thread instead of in threads
 //     perturb    0: no perturbation; 1: seeded sched_yield()/usleep(0..300us) between items
 //     prewarm    comma separated warm-up actions executed by the MAIN thread before the threads are released
 //                (only used to step over known findings): kidok | rangetoken | schemaload | pool (runs the poolwarm.<k> items)
@@ -570,8 +571,13 @@ int main(int argc, char** argv) {
         unsigned long long seed = strtoull(get(top, "seed", "0").c_str(), 0, 10);
         int perturb = (int)geti(top, "perturb", 0);
         for (int t = 0; t < n; t++) { ctx[t].idx = t; ctx[t].items = &items[t]; ctx[t].pool = pool; ctx[t].bar = &bar; ctx[t].seed = seed; ctx[t].perturb = perturb; }
-        for (int t = 0; t < n; t++) pthread_create(&th[t], 0, threadMain, &ctx[t]);
-        for (int t = 0; t < n; t++) pthread_join(th[t], 0);
+        if (geti(top, "st", 0)) {
+            // single-threaded control run (used by the driver to tell a concurrency failure from a plain defect of one work item)
+            for (int t = 0; t < n; t++) { ctx[t].bar = 0; ctx[t].perturb = 0; threadMain(&ctx[t]); }
+        } else {
+            for (int t = 0; t < n; t++) pthread_create(&th[t], 0, threadMain, &ctx[t]);
+            for (int t = 0; t < n; t++) pthread_join(th[t], 0);
+        }
         pthread_barrier_destroy(&bar);
 
         // single-threaded reference run of the same lists (same process, same pool)
